@@ -13,7 +13,8 @@ EXPLANATION = (
     "AccountEventIndexer and in ExecutionManager::run; (R6) only the map's own exchange translates."
 )
 NOT_DECIDED = ["behaviour of exchange clients", "string contents of names"]
-ASSUMPTIONS = ["indexmap get_index(i) returns the i-th inserted entry; HashMap/IndexMap::get is a keyed lookup"]
+ASSUMPTIONS = ["indexmap get_index(i) returns the i-th inserted entry; HashMap/IndexMap::get is a keyed lookup",
+               "InstrumentNameInternal is unique across exchanges (documented precondition, not enforced; see C11 and DESIGN 11.10)"]
 TECHNIQUE = "index-space discipline: positional-use vs aligned-table analysis over MIR provenance; role tables"
 
 EIM = "barter_execution::map::ExecutionInstrumentMap"
